@@ -19,7 +19,8 @@ META = {
     "text": "Answer sets and findall/3 lists of generated pure Prolog programs are compared with the Coq-defined SLD reference "
             "(sets for answers, exact lists for findall); recursive Datalog programs with an independent bottom-up evaluator; "
             "ClauseIndex.append/find histories with the Gallina model of the code."
-            " SLD fuel monotonicity and completeness for definite programs on finished runs are proved (answers' instances = least-model instances of the query).",
+            " SLD fuel monotonicity and completeness for definite programs on finished runs are proved (answers' instances = least-model instances of the query)."
+            " C13_tabled_is_lfp: the abstract tabling machine of C03 computes the least model on the relevant atoms of ground definite programs (cyclic ones too), agrees with every finished SLD run and answers where SLD never finishes.",
     "note": "Trusted: Coq kernel, extraction + OCaml driver, Python glue (program rendering, answer reading, the bottom-up "
             "evaluator used for recursive programs, which is cross-checked against the SLD reference on non-recursive ones).",
 }
